@@ -633,12 +633,14 @@ def main(argv):
     if bool(r.violated) != bool(predictions or not copy_verifies or (locked and any(keep_c[m] for m in locked))):
         raise MachineryError("TLC verdict on the observed design disagrees with the predicted pairs")
     # spec self-test: copying without verifying must be caught by TLC
-    r = tlc.run(d, "MC_MeshCache", mc_cfg(4, False, ["NoStaleRead"]), timeout=600)
+    # (depth bounds are given slack: with a VIEW and several workers a state may first be reached by a
+    # longer history than the shortest one, so a bound equal to the shortest counterexample is flaky)
+    r = tlc.run(d, "MC_MeshCache", mc_cfg(7, False, ["NoStaleRead"]), timeout=600)
     if r.violated != "NoStaleRead":
         raise MachineryError("spec self-test: CopyVerifies=FALSE not detected")
     some = [m for m in mutators if intended_keep[m]][:1]
     d4 = tlc.prepare("c01/selftest", files={"MC_MeshCache.tla": gen_module(classes, mutators, intended_keep, valid_c, side_c, True, 0, some)})
-    r = tlc.run(d4, "MC_MeshCache", mc_cfg(4, True, ["NoStaleRead"]), timeout=600)
+    r = tlc.run(d4, "MC_MeshCache", mc_cfg(7, True, ["NoStaleRead"]), timeout=600)
     if r.violated != "NoStaleRead":
         raise MachineryError("spec self-test: a mutator working under the lock without verifying was not detected")
 
